@@ -16,7 +16,7 @@ def gen_probe(srcdir):
             m.add(fn, code, w, unwind, meta=meta)
             if sh.typ == "Publish":
                 m.add(fn + "_fe", code.replace(fn, fn + "_fe"), w, unwind, stubs=G.STUBS_DECODE + [G.STUB_FROM_ELEM], meta=meta)
-        m.write(srcdir)
+        m.write(srcdir, chunk=1000)
         return m
     if os.environ.get("PROBE_SET") == "connect":
         shapes = [G.v3_connect("V311", 0x02), G.v3_connect("V311", 0xC6), G.v3_connect("V310", 0x2E), G.v3_connect("V311", 0x03),
@@ -26,7 +26,7 @@ def gen_probe(srcdir):
         for sh in shapes:
             fn, code, w, unwind, meta = G.emit_dec(sh)
             m.add(fn, code, w, unwind, meta=meta)
-        m.write(srcdir)
+        m.write(srcdir, chunk=1000)
         return m
     shapes = [
         G.v3_publish(1, 2, 2),
@@ -48,5 +48,23 @@ def gen_probe(srcdir):
     m.add(fn, code, w, unwind, meta=meta)
     fn, code, w, unwind, meta = G.emit_dec(shapes[2], bad=("filter", 1))
     m.add(fn, code, w, unwind, meta=meta)
-    m.write(srcdir)
+    m.write(srcdir, chunk=1000)
     return m
+
+
+import shapes as SH
+
+
+def _dec_module(name, doc, shapes_list, prop):
+    m = G.Module(name, doc)
+    for sh in shapes_list:
+        fn, code, w, unwind, meta = G.emit_dec(sh, prop=prop)
+        m.add(fn, code, w, unwind, meta=meta)
+    return m
+
+
+def gen_c04(tier):
+    def g(srcdir):
+        _dec_module("g_c04_v3", "C04: strict decoder acceptance = MQTT 3.1/3.1.1 grammar, per shape", SH.v3_shapes(tier), "C04").write(srcdir)
+        _dec_module("g_c04_v5", "C04: strict decoder acceptance = MQTT 5.0 grammar, per shape", SH.v5_shapes(tier), "C04").write(srcdir)
+    return g
